@@ -1,6 +1,6 @@
 """Per-property static text used in the evidence files (levels, assumptions, explanations)."""
 
-LEVELS = {}  # property -> evidence level; default 'proof'
+LEVELS = {"C11": "other", "C20": "other"}  # property -> evidence level; default 'proof'
 
 TRUSTED_COMMON = [
     "pyvc engine (this repository's own VC generator over Python's ast module): its model of Python semantics for the subset used",
@@ -16,4 +16,7 @@ ASSUMPTIONS_COMMON = [
 ]
 
 PROP_ASSUMPTIONS = {}
-EXPLAIN = {}
+EXPLAIN = {
+    "C20": "Mixed: Labware.__init__ is proved to establish wf(L) / raise ValueError (coverage.obligations/discharged); Trough.__init__, the trough naming helper and the initial composition are explored by the bounded monitor (coverage.bounded), not proved.",
+    "C11": "Mixed: the labware functions (add, remove, log, condense_log, volumes, history) are proved against sequence postconditions (coverage.obligations/discharged); the operation-level clauses (one entry per transfer/distribute per labware, LVH note) are explored by the bounded monitor listed under coverage.bounded and are not counted as proved.",
+}
